@@ -167,6 +167,19 @@ func rank(v Verdict) int {
 	return 5
 }
 
+// Discharge turns the violations of one rule whose key starts with prefix into discharged obligations
+// (used when a stronger, function-level argument covers what the per-site prover could not show).
+func (r *Report) Discharge(rule, prefix, by string) int {
+	n := 0
+	for _, o := range r.obs {
+		if o.Rule == rule && o.Verdict == Violation && strings.HasPrefix(o.Key, prefix) {
+			o.Verdict, o.By, o.Detail = Discharged, by, ""
+			n++
+		}
+	}
+	return n
+}
+
 // OK / Bad are shorthands.
 func (r *Report) OK(rule, key, at, by string) { r.Add(Ob{Rule: rule, Key: key, At: at, Verdict: Discharged, By: by}) }
 func (r *Report) Bad(rule, key, at, detail string) {
